@@ -29,6 +29,95 @@ pub struct WeedOpts {
     pub no_gap_only: bool,
 }
 
+/// The FASTA text `text` written another way that contains the same sequences (see
+/// `Op::WeedSpelling`); None when the style does not apply to this file.
+pub fn respell(text: &str, style: &str, salt: u64, k: usize, rc: bool) -> Option<(String, Vec<u8>)> {
+    let mut rng = Rng::new(salt);
+    let mut recs: Vec<(String, Vec<u8>)> = vec![];
+    for l in text.lines() {
+        if let Some(id) = l.strip_prefix('>') {
+            recs.push((id.to_string(), vec![]));
+        } else if let Some(r) = recs.last_mut() {
+            r.1.extend_from_slice(l.trim_end().as_bytes());
+        }
+    }
+    let plain = |recs: &[(String, Vec<u8>)], width: usize| -> String {
+        recs.iter().map(|(id, s)| crate::util::wrap_fasta(id, s, width)).collect()
+    };
+    let mut name = "respelt.fa".to_string();
+    let bytes: Vec<u8> = match style {
+        "lower" => plain(&recs, 60).lines().map(|l| if l.starts_with('>') { format!("{l}\n") } else { format!("{}\n", l.to_lowercase()) }).collect::<String>().into_bytes(),
+        "mixed-case" => {
+            for r in recs.iter_mut() {
+                for b in r.1.iter_mut() {
+                    if rng.chance(40) {
+                        *b = b.to_ascii_lowercase();
+                    }
+                }
+            }
+            plain(&recs, 0).into_bytes()
+        }
+        "crlf" => plain(&recs, 60).replace('\n', "\r\n").into_bytes(),
+        "gz" => {
+            use std::io::Write;
+            name = "respelt.fa.gz".into();
+            let mut e = flate2::write::GzEncoder::new(Vec::new(), flate2::Compression::default());
+            e.write_all(plain(&recs, 60).as_bytes()).expect("gzip");
+            e.finish().expect("gzip")
+        }
+        "wrap" => plain(&recs, *rng.pick(&[1usize, 2, 7, 13, k, k + 1, 250])).into_bytes(),
+        "short-records" => {
+            // records too short to hold a split k-mer (fewer than k bases) before, between and after
+            let mut out: Vec<(String, Vec<u8>)> = vec![];
+            for (i, r) in recs.iter().enumerate() {
+                if rng.chance(60) {
+                    let l = rng.range(1, k - 1);
+                    out.push((format!("short{i}"), rng.dna(l)));
+                }
+                out.push(r.clone());
+            }
+            let l = rng.range(1, k - 1);
+            out.push(("last".into(), rng.dna(l)));
+            plain(&out, 60).into_bytes()
+        }
+        "overlapping-pieces" => {
+            // a record without N cut in two pieces that overlap by k-1 bases holds the same windows of k
+            let mut out: Vec<(String, Vec<u8>)> = vec![];
+            let mut cut = false;
+            for (id, s) in &recs {
+                if !cut && !s.contains(&b'N') && s.len() >= 2 * k + 6 {
+                    let j = rng.range(3, s.len() - 2 * k - 2);
+                    out.push((format!("{id}.a"), s[..j + k - 1 + 2].to_vec()));
+                    out.push((format!("{id}.b"), s[j + 2..].to_vec()));
+                    cut = true;
+                } else {
+                    out.push((id.clone(), s.clone()));
+                }
+            }
+            if !cut {
+                return None;
+            }
+            plain(&out, 60).into_bytes()
+        }
+        "revcomp" => {
+            if !rc {
+                return None;
+            }
+            let i = rng.below(recs.len());
+            recs[i].1 = crate::util::revcomp(&recs[i].1);
+            plain(&recs, 60).into_bytes()
+        }
+        "duplicate-record" => {
+            let i = rng.below(recs.len());
+            let r = recs[i].clone();
+            recs.push(r);
+            plain(&recs, 60).into_bytes()
+        }
+        _ => return None,
+    };
+    Some((name, bytes))
+}
+
 #[derive(Clone, Debug, Serialize, Deserialize, PartialEq)]
 pub enum Observer {
     Align(AlignJ),
@@ -65,6 +154,10 @@ pub enum Op {
     WeedLaws { file: String, weed: String },
     /// C13: the same weed, in place, on a copy of the file whose name does not end in .skf
     WeedOddName { file: String, weed: String, ext: String, reverse: bool },
+    /// C13: the same weed with the weed file written another way (lower case, CRLF, gzip, other
+    /// line width, extra records shorter than k, a record cut into overlapping pieces, a record
+    /// reverse-complemented when strands are merged): the k-mers occurring in it are the same
+    WeedSpelling { file: String, weed: String, style: String, salt: u64, reverse: bool },
     /// C06: `ska align` against the model predicate
     Align { file: String, a: AlignJ },
     /// C14: `ska distance` against the model definition
@@ -728,6 +821,31 @@ impl<'a> Exec<'a> {
                 probe("weed_in_place_on_file_without_skf_suffix");
                 self.dir.remove(&odd);
             }
+            Op::WeedSpelling { file, weed, style, salt, reverse } => {
+                let table = self.model(file)?.table.clone();
+                let s = self.weed_set(weed, table.k, table.rc)?;
+                let Some(text) = self.c.extra.get(weed) else { return Err(Stop::Invalid("no weed file".into())) };
+                let Some((name, bytes)) = respell(text, style, *salt, table.k, table.rc) else {
+                    return Err(Stop::Invalid("spelling not applicable".into()));
+                };
+                self.dir.write(&name, &bytes);
+                let mut a = vec!["weed".to_string(), skf(file), name.clone(), "-o".into(), skf(".ws"), "--min-freq".into(), "0".into()];
+                if *reverse {
+                    a.push("--reverse".into());
+                }
+                let r = self.run(a)?;
+                if !r.ok() {
+                    return viol("weed:fails", format!("weed with {weed} respelt ({style}) ended with {}: {}", r.status_str(), r.stderr_tail()));
+                }
+                let got = self.inspect(".ws", "weed")?;
+                let exp = table.weed(&s, *reverse);
+                if got != exp {
+                    return viol(&format!("weed:same-sequences-written-differently-weed-differently[{style}]"), format!("{weed} as {name}: {}", exp.diff(&got)));
+                }
+                probe(&format!("weed_respelt_{style}"));
+                self.dir.remove(".ws.skf");
+                self.dir.remove(&name);
+            }
             Op::Align { file, a } => {
                 let table = self.model(file)?.table.clone();
                 let Some((_, thr)) = freq_setting(a.min_count, a.pct, table.n()) else {
@@ -1298,6 +1416,9 @@ impl StoreWorkload {
                     if rng.chance(12) {
                         let ext = ["", ".ska", ".skf.orig", ".v2"][rng.below(4)].to_string();
                         ops.push(Op::WeedOddName { file: cur.clone(), weed: rng.pick(&weeds).clone(), ext, reverse: rng.chance(30) });
+                    } else if rng.chance(15) {
+                        let style = ["lower", "mixed-case", "crlf", "gz", "wrap", "short-records", "overlapping-pieces", "revcomp", "duplicate-record"][rng.below(9)].to_string();
+                        ops.push(Op::WeedSpelling { file: cur.clone(), weed: rng.pick(&weeds).clone(), style, salt: rng.next_u64(), reverse: rng.chance(30) });
                     } else if rng.chance(50) {
                         ops.push(Op::WeedLaws { file: cur.clone(), weed: rng.pick(&weeds).clone() });
                     } else {
@@ -1544,7 +1665,7 @@ impl Workload for StoreWorkload {
             match ex.step(op) {
                 Ok(()) => {
                     let rel = match (c.focus.as_str(), op) {
-                        ("C07", Op::Merge { .. }) | ("C08", Op::Delete { .. }) | ("C13", Op::Weed { .. }) | ("C13", Op::WeedLaws { .. }) | ("C13", Op::WeedOddName { .. }) | ("C06", Op::Align { .. }) | ("C14", Op::Distance { .. }) | ("C14", Op::DistancePermuted { .. }) | ("C10", Op::Canon { .. }) => true,
+                        ("C07", Op::Merge { .. }) | ("C08", Op::Delete { .. }) | ("C13", Op::Weed { .. }) | ("C13", Op::WeedLaws { .. }) | ("C13", Op::WeedOddName { .. }) | ("C13", Op::WeedSpelling { .. }) | ("C06", Op::Align { .. }) | ("C14", Op::Distance { .. }) | ("C14", Op::DistancePermuted { .. }) | ("C10", Op::Canon { .. }) => true,
                         ("C10", Op::Build { .. }) => false,
                         ("C10", _) => true,
                         _ => false,
